@@ -58,7 +58,7 @@ def c16_lengths(task):
     viol = []
     sw, ch = 2, 1
     base = content(64, sw, ch)
-    for n in list(range(0, 65)) + [999, 1000, 1001, 1234, 1235]:
+    for n in list(range(0, 2101)) + [4095, 4097, 44099, 44101, 65537]:
         data = (base * (n // 64 + 1))[: n * sw * ch]
         smp = samples_of(data, sw, ch)
         r = AR(data, sr, sw, ch)
@@ -78,7 +78,7 @@ def c16_lengths(task):
             cov["distinct_nontrivial"] += 1
         if msg and len(viol) < 5:
             viol.append(("length sr=%d n=%d" % (sr, n), msg, {"kind": "c16len2", "sr": sr}))
-    cov["samples"].append({"rate": sr, "lengths": "0..64, 999..1001, 1234, 1235"})
+    cov["samples"].append({"rate": sr, "lengths": "0..2100, 4095, 4097, 44099, 44101, 65537"})
     return {"cov": cov, "viol": viol}
 
 
@@ -110,6 +110,48 @@ def c16_two_regions(rep):
             msg = "%s raised %r" % (name, exc)
         if msg:
             rep.violation("two-regions " + name, msg, {"kind": "c16two"})
+
+
+def c16_view_lifetime(rep):
+    """A view outlives every other reference to its region (v = load(f).ms; region[a:b].sec kept in a variable): after
+    any number of garbage collections it still slices that region."""
+    import gc
+
+    AR = lib()["AR"]
+    data = content(8, 2, 1)
+    smp = samples_of(data, 2, 1)
+
+    def fresh():
+        return AR(bytes(data), 8, 2, 1)
+
+    keep = fresh()
+    makers = [("AudioRegion(...).seconds", lambda: fresh().seconds, lambda v, a, b: v[a:b], keep.seconds),
+              ("AudioRegion(...).millis", lambda: fresh().millis, lambda v, a, b: v[None if a is None else int(a * 1000) : None if b is None else int(b * 1000)],
+               keep.seconds),
+              ("region[2:7].sec", lambda: fresh()[2:7].sec, lambda v, a, b: v[a:b], keep[2:7].seconds),
+              ("(r1 + r2).ms", lambda: (fresh() + fresh()).ms, lambda v, a, b: v[None if a is None else int(a * 1000) : None if b is None else int(b * 1000)],
+               (keep + keep).seconds)]
+    for name, mk, use, ref in makers:
+        for collections in (0, 1, 3):
+            v = mk()
+            for _ in range(collections):
+                gc.collect()
+            junk = [[i] for i in range(3000)]  # allocations that trigger the cyclic collector on their own
+            del junk
+            for a, b in ((None, None), (0.25, 0.5), (0, 0.125), (0.5, None), (-0.25, None)):
+                rep.add("evaluations")
+                rep.add("distinct_nontrivial")
+                try:
+                    got = use(v, a, b).data
+                    want = ref[a:b].data
+                    msg = None if got == want else "holds %s, the region's slice is %s" % (got.hex(), want.hex())
+                except Exception as exc:
+                    msg = "raised %r" % (exc,)
+                if msg:
+                    rep.violation("view-lifetime %s gc=%d [%r:%r]" % (name, collections, a, b),
+                                  "view %s kept after its region went out of scope (%d collections), sliced [%r:%r]: %s" % (name, collections, a, b, msg),
+                                  {"kind": "c16life"})
+                    break
 
 
 def c16_numpy_bounds(rep):
@@ -370,6 +412,57 @@ def c17_large(rep):
                 rep.violation("silence-large sw=%d ch=%d d=%r" % (sw, ch, d), "make_silence(%r) holds %d bytes" % (d, len(s_.data)), {"kind": "c17L"})
         if r.data != keep:
             rep.violation("mutated-large sw=%d ch=%d" % (sw, ch), "operand altered", {"kind": "c17L"})
+
+
+def c17_div_table(rep):
+    """region / k for every length 1..2100 at audio rates (k = 2, 3 and the length itself up to 64): min(k, len) contiguous
+    pieces, lengths within one sample of each other, concatenating to the original."""
+    AR = lib()["AR"]
+    base = content(64, 2, 1)
+    for sr in (100, 8000, 16000, 44100, 48000):
+        for n in range(1, 2101):
+            data = (base * (n // 64 + 1))[: n * 2]
+            r = AR(data, sr, 2, 1)
+            for k in (2, 3) + ((n, n + 1) if n <= 64 or n in (1001, 2002) else ()):
+                rep.add("evaluations")
+                rep.add("distinct_nontrivial")
+                try:
+                    pieces = r / k
+                    lens = [len(p) for p in pieces]
+                    ok = (len(pieces) == min(k, n) and b"".join(p.data for p in pieces) == data and max(lens) - min(lens) <= 1 and min(lens) >= 1
+                          and sum(lens) == n)
+                    msg = None if ok else "%d pieces of lengths %d..%d totalling %d samples" % (len(pieces), min(lens), max(lens), sum(lens))
+                except Exception as exc:
+                    msg = "raised %r" % (exc,)
+                if msg:
+                    rep.violation("div-table sr=%d n=%d k=%d" % (sr, n, k), "region of %d samples at %d Hz divided by %d: %s" % (n, sr, k, msg),
+                                  {"kind": "c17div"})
+                    return
+
+
+def c17_split_and_join(rep):
+    """split_and_join_with_silence() is silence.join(split regions): 0, 1, 2, 3 detections, several silence durations."""
+    L = lib()
+    AR, core = L["AR"], L["core"]
+    loud, quiet = (20000).to_bytes(2, "little", signed=True), bytes(2)
+    for pattern in ("aaaa", "aAAa", "AAAA", "AaaA", "aAaaAa", "AaaAaaA", "AAaaAAaaAA"):
+        data = b"".join((loud if c == "A" else quiet) * 2 for c in pattern)
+        for d in (0, 0.1, 0.25, 0.05, 1.0):
+            rep.add("evaluations")
+            kw = dict(min_dur=0.2, max_dur=1.0, max_silence=0, analysis_window=0.2, energy_threshold=50, sr=10, sw=2, ch=1)
+            regs = list(core.split(data, **kw))
+            want = None if not regs else (b"\0" * (2 * round(d * 10))).join(r.data for r in regs)
+            try:
+                got = core.split_and_join_with_silence(data, d, **kw)
+                got = None if got is None else got.data
+                msg = None if got == want else "holds %r bytes, the %d detections joined by round(%r*10) zero samples are %r bytes" % (
+                    None if got is None else len(got), len(regs), d, None if want is None else len(want))
+            except Exception as exc:
+                msg = "raised %r" % (exc,)
+            rep.add("distinct_nontrivial", int(bool(regs)))
+            if msg:
+                rep.violation("split-and-join pattern=%s d=%r" % (pattern, d), "split_and_join_with_silence on %s, silence %r s: %s" % (pattern, d, msg),
+                              {"kind": "c17saj"})
 
 
 def expected_view_slices(smp, sr, start_s, stop_s):
@@ -1076,6 +1169,56 @@ def c18_more(rep):
                             msg = "load(skip=%r, max_read=%r) on %s (%d samples) raised %r" % (skip, mr, kind, n, exc)
                         if msg:
                             rep.violation("load tiny skip sr=%d n=%d skip=%r mr=%r %s" % (sr, n, skip, mr, kind), msg, {"kind": "c18more"})
+    # a history on one path: a source object is made for the file, the file is then saved again (same size, other audio),
+    # and only then is the source opened and read - what is read back is what was saved last
+    from auditok.io import from_file
+
+    for ext in ("wav", "raw"):
+        for lazy in (True, False):
+            for maker in ("before", "between"):
+                path = os.path.join(d, "again." + ext)
+                versions = [content(6, 2, 1), bytes(reversed(content(6, 2, 1))), content(8, 2, 1)[4:]]
+                kw = {} if ext == "wav" else dict(sr=10, sw=2, ch=1)
+                AR(versions[0], 10, 2, 1).save(path)
+                src = from_file(path, large_file=lazy, **kw) if maker == "before" else None
+                AR(versions[1], 10, 2, 1).save(path)
+                if src is None:
+                    src = from_file(path, large_file=lazy, **kw)
+                AR(versions[2], 10, 2, 1).save(path)
+                rep.add("evaluations")
+                want = versions[2] if lazy else (versions[0] if maker == "before" else versions[1])  # in-memory loading reads at once
+                try:
+                    src.open()
+                    got = src.read(-1)
+                    src.close()
+                    msg = None if got == want else "read back %r, last saved %r" % (got, want)
+                    if msg is None and lazy:
+                        AR(versions[1], 10, 2, 1).save(path)
+                        src.open()
+                        got = src.read(-1)
+                        src.close()
+                        msg = None if got == versions[1] else "after close, another save and reopening: read back %r, last saved %r" % (got, versions[1])
+                except Exception as exc:
+                    msg = "raised %r" % (exc,)
+                if msg:
+                    rep.violation("save-again %s lazy=%s source made %s" % (ext, lazy, maker),
+                                  "%s file saved three times, %s source object made %s the saves, opened afterwards: %s" % (
+                                      ext, "lazy" if lazy else "in-memory", maker, msg), {"kind": "c18more"})
+    # encoder keyword arguments given to save() describe no audio: the file carries the region's own parameters
+    for extra in (dict(sampling_rate=30, sample_width=1, channels=2), dict(sr=30, sw=1, ch=2), dict(bitrate="64k")):
+        rep.add("evaluations")
+        reg = AR(content(6, 2, 1), 10, 2, 1)
+        path = os.path.join(d, "extra.wav")
+        try:
+            reg.save(path, **extra)
+            back = auditok.load(path)
+            ok = back.data == reg.data and (back.sr, back.sw, back.ch) == (10, 2, 1)
+            msg = None if ok else "read back %d bytes at (%d Hz, %d bytes, %d ch), saved %d bytes at (10 Hz, 2 bytes, 1 ch)" % (
+                len(back.data), back.sr, back.sw, back.ch, len(reg.data))
+        except Exception as exc:
+            msg = "raised %r" % (exc,)
+        if msg:
+            rep.violation("save extra kwargs %s" % sorted(extra), "region.save(path, **%r): %s" % (extra, msg), {"kind": "c18more"})
     # file names: every placeholder is filled from the region's own start / end / duration
     for start, n in ((0.1, 2), (0.7, 1), (0.3, 3), (1.455, 10)):
         reg = AR(content(n, 2, 1), 10, 2, 1, start)
@@ -1136,6 +1279,7 @@ def run(prop, tier):
                             "of the sample sequence; exact rational oracle for the seconds/millis views")
         c16_type_errors(rep)
         c16_two_regions(rep)
+        c16_view_lifetime(rep)
         c16_numpy_bounds(rep)
         c16_huge(rep)
         nmax = 5 if quick else 12
@@ -1154,6 +1298,8 @@ def run(prop, tier):
                             "against sample lists; operands snapshotted around every operation; exhaustive pair tables")
         c17_misc(rep)
         c17_large(rep)
+        c17_div_table(rep)
+        c17_split_and_join(rep)
         depth = 3 if quick else 4
         nparts = 16
         for part in common.pmap(c17_work, [(depth, i, nparts) for i in range(nparts)]):
@@ -1233,6 +1379,9 @@ def replay(case):
         return part["viol"][0][1] if part["viol"] else None
     if k == "c17L":
         c17_large(rep)
+        return rep.violations[0][1] if rep.violations else None
+    if k in ("c16life", "c17div", "c17saj"):
+        {"c16life": c16_view_lifetime, "c17div": c17_div_table, "c17saj": c17_split_and_join}[k](rep)
         return rep.violations[0][1] if rep.violations else None
     if k == "c16c":
         part = c16_chained((case["sw"], case["ch"]))
